@@ -206,6 +206,40 @@ def random_concurrent(rng, kind, k, per):
     return {"kind": kind, "rate": rate * 1000, "ival": ival, "qsize": 4096, "streams": streams, "steps": steps}
 
 
+def overflow_script(rng):
+    """the downstream writer is slow (the pacer's goroutine is blocked in it) while a burst arrives: the hand-over channel
+    fills, further writes must fail with an error - what was accepted is still delivered once, in order."""
+    rate, ival, q = rng.choice([1000, 10000, 50000]), rng.choice([1, 5]), rng.choice([1, 2, 4, 8])
+    need = Need("pacing", rate, ival)
+    steps = [{"a": "hold", "ms": rng.choice([20, 40])}, wr(1, 1, 112), {"a": "waithold"}]
+    need.write(112)
+    for i in range(q + rng.choice([2, 6, 12])):
+        steps.append(wr(i + 2, rng.choice([1, 2]), rng.choice([52, 112, 212])))
+        need.write(212)
+    steps += [{"a": "sleep", "ms": 45}, {"a": "quiesce", "wait": need.wait()}, wr(90, 2, 112), wr(91, 1, 52)]
+    need.write(200)
+    steps += [{"a": "quiesce", "wait": need.wait()}, {"a": "close"}]
+    return {"kind": "pacing", "rate": rate * 1000, "ival": ival, "qsize": q, "streams": [1, 2], "steps": steps}
+
+
+def slow_writer_script(rng, kind):
+    """a backlog, a slow downstream write (the pacer is blocked in the harness writer for `hold` ms) and a rate change
+    while it is blocked; low rates and small packets so that the envelope is tight."""
+    rate = rng.choice([100, 100, 200, 1000]) if kind == "pacing" else rng.choice(RATES[kind])
+    ival = rng.choice([1, 5]) if kind == "pacing" else 5
+    need = Need(kind, rate, ival)
+    n = 12000 // (8 * 52) + rng.choice([20, 40])
+    steps = [{"a": "hold", "ms": 40}]
+    for i in range(n):
+        steps.append(wr(i + 1, rng.choice([1, 2]), 52))
+        need.write(52)
+    nr = rng.choice([rate, rate, 2 * rate])
+    steps += [{"a": "waithold"}, {"a": "sleep", "ms": rng.choice([10, 15, 20])}, {"a": "setrate", "rate": nr * 1000}]
+    need.setrate(nr)
+    steps += [{"a": "quiesce", "wait": need.wait() + 150}, {"a": "close"}]
+    return {"kind": kind, "rate": rate * 1000, "ival": ival, "qsize": 1024, "streams": [1, 2], "steps": steps}
+
+
 def nontrivial(evs):
     kind = evs[0].get("kind")
     if not any(e["a"] == "rel" for e in evs):
@@ -357,11 +391,14 @@ def run(ctx):
     t_gcc = [random_single(rng, k, ln) for k in ("leaky", "leaky", "noop") for _ in range(ns // 3)]
     c_tb = [random_concurrent(rng, "pacing", rng.choice([2, 3, 4]), per) for _ in range(nc)]
     c_gcc = [random_concurrent(rng, k, rng.choice([2, 3, 4]), per) for k in ("leaky", "noop") for _ in range(nc // 2)]
+    no, nsw = (8, 8) if quick else (60, 60)
+    x_tb = [overflow_script(rng) for _ in range(no)] + [slow_writer_script(rng, "pacing") for _ in range(nsw)]
+    x_gcc = [slow_writer_script(rng, "leaky") for _ in range(nsw // 2)]
     run_batches(ctx, [
         ("G-pacing", "pacing", tb + over),
         ("G-gcc", "gcc", gcc),
-        ("T-pacing", "pacing", t_tb + over2 + c_tb),
-        ("T-gcc", "gcc", t_gcc + c_gcc),
+        ("T-pacing", "pacing", t_tb + over2 + c_tb + x_tb),
+        ("T-gcc", "gcc", t_gcc + c_gcc + x_gcc),
     ])
     ctx.assumptions += [
         "Pacer.tla is the reading of the property; acceptance = Write returned nil; the stream of a packet is the bound stream "
